@@ -46,6 +46,20 @@ PROBES = {
     "tabs": "int",
     "diff-stat-align-width": "int",
     "line-numbers-left-format": "string",   # printed only when line-numbers is on
+    "width": "int",                 # Option<String> getter
+    "pager": "string",              # Option<String> getter
+    "max-line-distance": "float",   # f64 getter
+}
+# one probe (at least) per `impl GitConfigGet for T`
+GETTER_PROBES = {"String": ["file-modified-label", "file-style"], "Option<String>": ["width", "pager"],
+                 "bool": ["keep-plus-minus-markers", "navigate"], "usize": ["tabs", "diff-stat-align-width"],
+                 "f64": ["max-line-distance"]}
+BOTH_VALUES = {  # probe -> (file value, GIT_CONFIG_PARAMETERS value, custom feature value, command line value)
+    "file-modified-label": ("Vfile", "Vpar", "Va", "Vcli"), "file-style": ("green", "yellow", "blue", "red"),
+    "width": ("60", "40", "50", "33"), "pager": ("pgfile", "pgpar", "pga", "pgcli"),
+    "keep-plus-minus-markers": ("false", "true", "false", None), "navigate": ("false", "true", "false", None),
+    "tabs": ("3", "4", "5", "2"), "diff-stat-align-width": ("42", "43", "44", "41"),
+    "max-line-distance": ("0.3", "0.5", "0.7", "0.25"),
 }
 
 # The oracle's own knowledge of the builtin features (from the manual / --help / reading the
@@ -727,14 +741,75 @@ def family_env(thorough):
     return out
 
 
+def family_both(thorough):
+    """The same key in the `[delta]` section of the file and in GIT_CONFIG_PARAMETERS (different values),
+    for options of every getter type; alone, under a command-line value, above a custom feature that
+    sets it too, under --no-gitconfig; the `features` key and a feature flag in both places; and both
+    bool polarities."""
+    out = []
+    for ty, probes in GETTER_PROBES.items():
+        for probe in probes:
+            vfile, vpar, va, vcli = BOTH_VALUES[probe]
+            for variant in ("plain", "swapped", "+cli", "+feature", "+feature-main", "no-gitconfig", "params-only",
+                            "file-only"):
+                c = base_cfg()
+                c["probes"] = [probe]
+                f, q = (vpar, vfile) if variant == "swapped" else (vfile, vpar)
+                if variant != "params-only":
+                    c["config"]["main"].append([probe, f])
+                if variant != "file-only":
+                    c["params"].append([probe, q])
+                if variant == "+cli":
+                    c["cli"].append([probe, vcli])
+                if variant in ("+feature", "+feature-main"):
+                    add_section(c, "a", [(probe, va)])
+                    if variant == "+feature":
+                        c["features"] = "a"
+                    else:
+                        c["config"]["main"].append(["features", "a"])
+                if variant == "no-gitconfig":
+                    c["no_gitconfig"] = True
+                c["family"] = f"both/{ty}/{probe}/{variant}"
+                out.append(c)
+    # all getter types at once
+    c = base_cfg()
+    c["probes"] = [p for ps in GETTER_PROBES.values() for p in ps]
+    for p in c["probes"]:
+        c["config"]["main"].append([p, BOTH_VALUES[p][0]])
+        c["params"].append([p, BOTH_VALUES[p][1]])
+    c["family"] = "both/all-types"
+    out.append(c)
+    # the `features` key (String getter inside gather_features) and a feature flag (bool getter) in both places
+    for ffile, fpar in (("b", "a"), ("a", "b"), ("a b", "b")):
+        c = base_cfg()
+        add_section(c, "a", [("file-added-label", "Pa"), ("width", "50")])
+        add_section(c, "b", [("file-added-label", "Pb"), ("file-removed-label", "Rb"), ("width", "55")])
+        c["config"]["main"].append(["features", ffile])
+        c["params"].append(["features", fpar])
+        c["probes"] = ["file-added-label", "file-removed-label", "width"]
+        c["family"] = f"both/features-key/{ffile.replace(' ', '+')}/{fpar}"
+        out.append(c)
+    for vf, vp in (("true", "false"), ("false", "true")):
+        for flag in ("navigate", "line-numbers", "raw"):
+            c = base_cfg()
+            c["config"]["main"].append([flag, vf])
+            c["params"].append([flag, vp])
+            c["probes"] = ["navigate", "line-numbers", "file-modified-label", "file-style", "keep-plus-minus-markers",
+                           "tabs"]
+            c["family"] = f"both/flag/{flag}/{vf}-{vp}"
+            out.append(c)
+    return out
+
+
 def random_cfg(rng):
     """thorough tier: a random configuration over the same vocabulary (up to 4 custom nodes)."""
     names = ["a", "b", "c", "d"]
     builtins = ["navigate", "raw", "line-numbers", "side-by-side", "diff-so-fancy", "diff-highlight", "hyperlinks"]
     probes = ["file-modified-label", "file-style", "keep-plus-minus-markers", "tabs", "diff-stat-align-width",
-              "file-added-label", "navigate", "line-numbers", "side-by-side", "hyperlinks", "commit-style"]
+              "file-added-label", "navigate", "line-numbers", "side-by-side", "hyperlinks", "commit-style",
+              "width", "pager", "max-line-distance"]
     texts = {"string": ["T1", "T2", "T3", "T4"], "style": ["red", "green", "blue", "yellow", "magenta"],
-             "bool": ["true", "false"], "int": ["1", "2", "3", "5"]}
+             "bool": ["true", "false"], "int": ["31", "32", "33", "35"], "float": ["0.1", "0.2", "0.4", "0.9"]}
     c = base_cfg()
     c["family"] = "random"
     c["probes"] = list(probes)
@@ -757,7 +832,8 @@ def random_cfg(rng):
     for o in probes:
         if rng.random() < 0.12:
             c["config"]["main"].append([o, val(o)])
-        if rng.random() < 0.06 and o not in [k for k, _ in c["params"]]:
+        if rng.random() < (0.5 if any(k == o for k, _ in c["config"]["main"]) else 0.06) \
+                and o not in [k for k, _ in c["params"]]:
             c["params"].append([o, val(o)])
         if rng.random() < 0.08:
             c["cli"].append([o, None if PROBES[o] == "bool" else val(o)])
@@ -1005,12 +1081,15 @@ def run(ctx, rep):
                 "cyclic, builtin-named sections) x 7 placements of the roots, observed through pairwise 'tournament' "
                 "probe options; (3) pairs of builtin feature flags on the command line / in [delta] / in custom "
                 "sections / GIT_CONFIG_PARAMETERS; (4) --no-gitconfig with and without --config; (5) DELTA_FEATURES (empty, '+', with and without '+') against "
-                "--features / [delta] features / GIT_CONFIG_PARAMETERS delta.features. Every configuration "
+                "--features / [delta] features / GIT_CONFIG_PARAMETERS delta.features; (6) the same key in the [delta] section of the file and in "
+                "GIT_CONFIG_PARAMETERS with different values, for two options of every getter type (String, Option<String>, "
+                "bool, usize, f64; one for f64) alone / under a command-line value / above a feature / under --no-gitconfig, "
+                "the `features` key and feature flags in both places. Every configuration "
                 "is run in >= 3 fresh processes. non-trivial = at least two sources set a probe, or features are "
                 "enabled, or --no-gitconfig; distinct by configuration hash")
     thorough = not ctx.quick()
     cfgs = (family_sources(thorough) + family_graphs(thorough) + family_flags(thorough) + family_nogitconfig(thorough)
-            + family_env(thorough))
+            + family_env(thorough) + family_both(thorough))
     if thorough:
         cfgs += [random_cfg(ctx.rng) for _ in range(6000)]
     rep.exhaustive = dict(lattice_configs=len(cfgs), runs_per_config=ctx.n(3, 6))
